@@ -42,7 +42,7 @@ def phase_a(group):
 
 def phase_b(s):
     ID, k, crate, demos, checks = s
-    p = subprocess.run(["python3", "/verif/tools/verify_seed.py", ID, k, crate, demos, checks, "--checks-only"], capture_output=True, text=True, cwd="/verif")
+    p = subprocess.run(["python3", "/verif/tools/verify_seed.py", ID, k, crate, demos, checks, "--checks-only"] + (["--quick-only"] if os.environ.get("SEED_QUICK_ONLY") else []), capture_output=True, text=True, cwd="/verif")
     st = subprocess.run("git -C /repo status --short", shell=True, capture_output=True, text=True).stdout.strip()
     try:
         m = json.load(open(f"/verif/seeded/{ID}-{k}/meta.json"))
